@@ -282,6 +282,9 @@ namespace
             if (auto* P = enclosingFunction(MD->getParent()->getParent()))
                 if (P->isTemplateInstantiation() || (isa<CXXMethodDecl>(P) && isa<ClassTemplateSpecializationDecl>(cast<CXXMethodDecl>(P)->getParent())))
                     base += "#in:" + funcId(P);
+            // instantiations of a generic lambda's call operator
+            if (FD->isTemplateInstantiation())
+                base += (base.find("#in:") == std::string::npos ? "#in:" : "|") + sigOf(FD);
             return base;
         }
         return fullFuncName(FD) + sigOf(FD);
@@ -1262,7 +1265,13 @@ namespace
         bool VisitLambdaExpr(LambdaExpr* LE)
         {
             if (LE->isGenericLambda())
+            {
+                // one function per instantiation of the call operator
+                if (auto* FTD = LE->getCallOperator()->getDescribedFunctionTemplate())
+                    for (auto* Spec : FTD->specializations())
+                        emitFunction(Spec, LE);
                 return true;
+            }
             emitFunction(LE->getCallOperator(), LE);
             return true;
         }
